@@ -43,6 +43,8 @@ type State struct {
 	heap     map[string]string
 	heap0    map[string]string
 	allocs   []string
+	bufs     map[string]string   // bytes.Buffer handle -> content written so far
+	encs     map[string][3]string // encoder handle -> {buffer handle, codec term, number of Encode calls so far}
 	pcTags   map[int][]string    // path-condition entries that are only relevant for obligations carrying one of these tags
 	top      string              // allocation boundary: every reference allocated so far is < top
 	top0     string              // its value at function entry
@@ -74,6 +76,14 @@ func (s *State) clone() *State {
 	n.guards = append([]string(nil), s.guards...)
 	n.path = append([]string(nil), s.path...)
 	n.allocs = append([]string(nil), s.allocs...)
+	n.bufs = map[string]string{}
+	for k, v := range s.bufs {
+		n.bufs[k] = v
+	}
+	n.encs = map[string][3]string{}
+	for k, v := range s.encs {
+		n.encs[k] = v
+	}
 	n.pcTags = map[int][]string{}
 	for k, v := range s.pcTags {
 		n.pcTags[k] = v
@@ -653,7 +663,8 @@ func verifyFunc(w *World, fi *FuncInfo, sweep bool) (res *FuncResult) {
 	info := fi.Pkg.TypesInfo
 	e.numberCalls(fi.Decl, info)
 	st := &State{env: map[*types.Var]string{}, pre: map[string]string{}, ghosts: map[string]string{}, snaps: map[*types.Var]string{},
-		closures: map[*types.Var]*ast.FuncLit{}, heap: map[string]string{}, heap0: map[string]string{}, nonNil: map[*types.Var]bool{}}
+		closures: map[*types.Var]*ast.FuncLit{}, heap: map[string]string{}, heap0: map[string]string{}, nonNil: map[*types.Var]bool{},
+		bufs: map[string]string{}, encs: map[string][3]string{}}
 	st.top = e.fresh(st, "allocTop0", "Int")
 	st.top0 = st.top
 	st.pc = append(st.pc, "(> "+st.top+" 0)")
